@@ -121,6 +121,134 @@ def search_py(stc: int, magic_ok: bool, tc: int, stp: int, tp: int, mtime: int, 
     return False
 
 
+# ---- PyPackageSearcher: a package directory (delegates to PyFileSearcher) or a zipped egg (loader with a file table) -----
+import sys as _sys
+import types as _types
+from pysmi.searcher import pypackage
+
+# (DOS date, DOS time) pairs of the egg's file table and the epoch seconds time.mktime gives for them (computed with the
+# same formula as the documented ZIP layout, NOT by the code under test)
+def _dos(y, mo, d, h, mi, sec):
+    return ((y - 1980) << 9) | (mo << 5) | d, (h << 11) | (mi << 5) | (sec // 2)
+
+
+DOS_POOL = [(2001, 2, 3, 4, 5, 6), (2010, 12, 31, 23, 59, 58), (1999, 1, 1, 0, 0, 0)]
+
+
+def _epoch(t):
+    import time
+    return time.mktime(t + (-1, -1, -1))
+
+
+class _Loader(object):
+    def __init__(self, files, datas):
+        self._files = files
+        self._datas = datas
+
+    def get_data(self, f):
+        return self._datas[f]
+
+
+def search_pkg_egg(stc: int, magic_ok: bool, tc: int, has_py: bool, di: int, off: int, rebuild: bool, other: bool) -> bool:
+    """
+    requires: 0 <= stc <= 1 and 0 <= di < len(DOS_POOL) and -1 <= off <= 1 and 0 <= tc
+    """
+    # the package is a zipped egg: its loader exposes the archive's file table. `off` places the source's mtime just below /
+    # at / just above the time recorded for the module's .py; `tc` (unbounded) is the time embedded in the .pyc
+    cext, pext = pypackage.BYTECODE_SUFFIXES[0], pypackage.SOURCE_SUFFIXES[0]
+    dt = DOS_POOL[0]
+    for j in range(len(DOS_POOL)):
+        if di == j:
+            dt = DOS_POOL[j]
+    dd, dtm = _dos(*dt)
+    py_time = _epoch(dt)
+    mtime = py_time + off if has_py else tc + off
+    files, datas = {}, {}
+    if stc == 1:
+        files['vpkg/M-MIB' + cext] = (0,) * 7
+        datas['vpkg/M-MIB' + cext] = (pypackage.PY_MAGIC_NUMBER if magic_ok else b'BAD!') + b'TIME' + b'rest'
+    if has_py:
+        files['vpkg/M-MIB' + pext] = (0, 0, 0, 0, 0, dtm, dd)
+    if other:
+        # files that must not count: another module whose name extends the requested one, another extension
+        files['vpkg/M-MIBX' + pext] = (0, 0, 0, 0, 0, 0x7fff, 0x7fff)
+        files['vpkg/M-MIB.txt'] = (0, 0, 0, 0, 0, 0x7fff, 0x7fff)
+    mod = _types.ModuleType('vpkg')
+    mod.__loader__ = _Loader(files, datas)
+    mod.__file__ = '/eggs/vpkg.egg/vpkg/__init__.py'
+
+    class _Struct(object):
+        @staticmethod
+        def unpack(fmt, data):
+            return (tc,)
+
+    old = _sys.modules.get('vpkg')
+    _sys.modules['vpkg'] = mod
+    pypackage.struct = _Struct
+    try:
+        got = _ask(pypackage.PyPackageSearcher('vpkg'), 'M-MIB', mtime, rebuild)
+    finally:
+        if old is None:
+            del _sys.modules['vpkg']
+        else:
+            _sys.modules['vpkg'] = old
+    if rebuild:
+        return got == 'returned'
+    # up to date exactly when SOME transformed file of that module is not older than the source (the statement; an earlier
+    # version of this oracle said "the byte-code file decides", mirroring the code - and hid a defect)
+    fresh = (stc == 1 and magic_ok and tc >= mtime) or (has_py and py_time >= mtime)
+    return got == ('not-modified' if fresh else 'not-found')
+
+
+def search_pkg_dir(stp: int, tp: int, mtime: int, rebuild: bool, importable: bool) -> bool:
+    """
+    requires: 0 <= stp <= 2
+    """
+    # an ordinary package directory: the answer is PyFileSearcher's answer for that directory; an unimportable package is
+    # simply "not found"
+    fs = _mkfs(0)
+    fs.dirs.add('/site/vpkg2')
+    _put(fs, '/site/vpkg2/M-MIB' + pyfile.SOURCE_SUFFIXES[0], stp, tp)
+    pyfile.os = FakeOs(fs)
+    mod = _types.ModuleType('vpkg2')
+    mod.__file__ = '/site/vpkg2/__init__.py'
+    if hasattr(mod, '__loader__'):
+        mod.__loader__ = None
+    old = _sys.modules.get('vpkg2')
+    if importable:
+        _sys.modules['vpkg2'] = mod
+    else:
+        _sys.modules.pop('vpkg2', None)
+    try:
+        got = _ask(pypackage.PyPackageSearcher('vpkg2'), 'M-MIB', mtime, rebuild)
+    finally:
+        _sys.modules.pop('vpkg2', None)
+        if old is not None:
+            _sys.modules['vpkg2'] = old
+    if rebuild:
+        return got == 'returned'
+    if not importable:
+        return got == 'not-found'
+    fresh = stp == 2 and tp >= mtime
+    return got == ('not-modified' if fresh else 'not-found')
+
+
+def import_bare(flags: str) -> bool:
+    """
+    requires: flags in ('-I', '-IS')
+    """
+    # concrete witness: the searcher package imports in an interpreter where nothing else has loaded importlib.machinery
+    # (no site processing with -S); a searcher that cannot even be imported answers nothing at all
+    import os
+    import subprocess
+    import ply
+    repo = os.environ.get('VERIF_REPO', '/repo')
+    site = os.path.dirname(os.path.dirname(os.path.abspath(ply.__file__)))
+    code = 'import sys; sys.path.insert(0, %r); sys.path.append(%r); import pysmi.searcher' % (repo, site)
+    args = [_sys.executable] + (['-I', '-S'] if flags == '-IS' else ['-I']) + ['-c', code]
+    return subprocess.run(args, stdout=subprocess.PIPE, stderr=subprocess.PIPE).returncode == 0
+
+
 POOL = ['SNMPv2-SMI', 'SNMPv2-TC', 'IF-MIB', 'SNMPv2', 'if-mib']
 
 
@@ -153,6 +281,11 @@ def conditions(prop, tier):
         dict(name='C10.PyFileSearcher', fn='search_py', fixed={}, timeout=t,
              bounds='.pyc (absent/dir/file, magic ok or not, unbounded embedded time) and .py (absent/dir/file, unbounded mtime); '
                     'source mtime unbounded; rebuild; open/stat fault at call<=3'),
+        dict(name='C10.PyPackageSearcher.egg', fn='search_pkg_egg', fixed={}, timeout=t,
+             bounds='zipped egg (loader with a file table): .pyc present or not, magic ok or not, unbounded embedded time; .py present or not with a DOS '
+                    'time stamp from a pool; source mtime one second below / equal / above the deciding time; distractor entries; rebuild'),
+        dict(name='C10.PyPackageSearcher.dir', fn='search_pkg_dir', fixed={}, timeout=t,
+             bounds='package directory (delegation to PyFileSearcher) or unimportable package; .py absent/dir/file with unbounded mtime; rebuild'),
         dict(name='C10.StubSearcher', fn='search_stub', fixed={}, timeout=t,
              bounds='requested name by symbolic index into a 5-name pool (incl. prefix and case variants); every subset as stub list; '
                     'rebuild and mtime symbolic'),
@@ -163,4 +296,9 @@ def selftests(prop):
     return [('search_any', dict(st0=2, st1=0, t0=5, t1=0, mtime=5, rebuild=False, fault=0, distract=True)),
             ('search_any', dict(st0=0, st1=0, t0=5, t1=0, mtime=5, rebuild=False, fault=0, distract=True)),
             ('search_py', dict(stc=0, magic_ok=True, tc=0, stp=2, tp=9, mtime=5, rebuild=False, fault=0)),
+            ('search_pkg_egg', dict(stc=1, magic_ok=True, tc=100, has_py=True, di=0, off=0, rebuild=False, other=True)),
+            ('search_pkg_egg', dict(stc=0, magic_ok=True, tc=0, has_py=True, di=1, off=1, rebuild=False, other=False)),
+            ('search_pkg_dir', dict(stp=2, tp=9, mtime=9, rebuild=False, importable=True)),
+            ('search_pkg_dir', dict(stp=2, tp=9, mtime=9, rebuild=False, importable=False)),
+            ('import_bare', dict(flags='-IS')),
             ('search_stub', dict(ask=3, in0=True, in1=False, in2=False, in3=False, in4=False, mtime=0, rebuild=True))]
